@@ -33,7 +33,9 @@ THEOREMS['C17'] = ['FB.Conc.P3.C17_no_append_after_close', 'FB.Conc.P3.C17_compl
 THEOREMS['C08'] += ['FB.Conc.P1.claim_unique', 'FB.Conc.P1.executed_at_most_once']
 THEOREMS['C04'] = ['FB.C04_exists_iff', 'FB.C04_not_both', 'FB.C04_listDir_iff', 'FB.C04_listDir_errors',
                    'FB.C04_hidden', 'FB.C04_visible_elsewhere', 'FB.BuildDirs.run_inv', 'FB.BuildDirs.handleDirExists_inv',
-                   'FB.BuildDirs.started_inv', 'FB.BuildDirs.error_inv', 'FB.BuildDirs.isRemoved_inv']
+                   'FB.BuildDirs.started_inv', 'FB.BuildDirs.error_inv', 'FB.BuildDirs.isRemoved_inv',
+                   'FB.BuildDirs.C04_isRemoved_iff_gone', 'FB.BuildDirs.isRemoved_spec', 'FB.BuildDirs.checkMaybeRemoved_spec',
+                   'FB.BuildDirs.checkLoop_spec', 'FB.BuildDirs.handleDirExists_qinv', 'FB.BuildDirs.qreach_qinv']
 THEOREMS['C02'] = ['FB.C02_rolledBack_frame', 'FB.C02_rolledBack_files', 'FB.C02_spec_build_raises', 'FB.Backups.restoreAll_spec',
                    'FB.Backups.restoreOne_self', 'FB.Backups.restoreOne_other', 'FB.Backups.backUp_file']
 THEOREMS['C14'] = ['FB.C14_fault_surfaces', 'FB.C02_spec_build_raises', 'FB.C02_rolledBack_files']
